@@ -59,7 +59,7 @@ Example C08_dirty_state_is_reset :
   st_reset natK dirty 3 = st_reset natK (st_new nat) 3
   /\ st_sizes (st_reset natK dirty 3) = [1; 1; 1]
   /\ a_next (st_active (st_reset natK dirty 3)) = [1; 2; 3]
-  /\ h_prio (st_queue (st_reset natK dirty 3)) = [1000; 1000; 1000]
+  /\ h_prio (st_queue (st_reset natK dirty 3)) = [2000; 2000; 2000]
   /\ u_parents (st_set (st_reset natK dirty 3)) = [0; 1; 2; 3; 4].
 Proof. repeat split; reflexivity. Qed.
 Print Assumptions C08_dirty_state_is_reset.
